@@ -29,7 +29,7 @@ def stage_count(ctx):
             if self.kind == 'M': raise X.MaxRetriesException()
             raise X.RequestRejectedException('ILLEGAL DATA ADDRESS')
 
-    cases, descr = [], []
+    cases, gcases, descr = [], [], []
     for n in range(1, L + 1):
         for h in itertools.product(kinds, repeat=n):
             inv = goodwe.ET('192.0.2.1', 8899)
@@ -59,6 +59,9 @@ def stage_count(ctx):
                         break
             term = '[' + ';'.join({'S': 'RSucc', 'F': 'RFail', 'M': 'RFail', 'R': 'RRej'}[k] for k in h) + ']'
             cases.append((f'map (fun o => match o with Some n => Z.of_nat n | None => 0 end) (count_run 0 {term})', got))
+            # the same history through the shape generated from the current source (Gen/InverterGen.v)
+            gterm = '[' + ';'.join({'S': '(RSucc,true)', 'F': '(RFail,false)', 'M': '(RFail,true)', 'R': '(RRej,true)'}[k] for k in h) + ']'
+            gcases.append((f'map (fun o => match o with Some n => Z.of_nat n | None => 0 end) (run_calls 0 {gterm})', got))
             descr.append(''.join(h))
             st.case(h, sample=dict(history=''.join(h), reported_counts=got))
     bad, err = C.eval_cases('c09cnt', 'FailCount', cases, shard=700)
@@ -66,6 +69,11 @@ def stage_count(ctx):
     for i in bad[:5]:
         st.violation('count-mismatch', f'Model/FailCount.v and _read_from_socket disagree on history {descr[i]}: implementation {cases[i][1]}',
                      dict(history=descr[i], implementation=cases[i][1]), no_input=True)
+    bad, err = C.eval_cases('c09gen', 'FailCount InvProg InverterGen InvProgRefine', gcases, shard=700)
+    if err: st.violation('count-eval', f'evaluation of the generated shape failed: {err[:300]}', dict(error=err), no_input=True)
+    for i in bad[:5]:
+        st.violation('count-mismatch', f'the shape generated from _read_from_socket (Gen/InverterGen.v) and the method itself disagree on history {descr[i]}: implementation {gcases[i][1]}',
+                     dict(history=descr[i], implementation=gcases[i][1]), no_input=True)
     st.stats['exhaustive_to_length'] = L
     return st
 
@@ -118,7 +126,8 @@ def stage_decode(ctx):
 
 SPEC = spec(
     'C09',
-    ['C09_execute_catches_is_the_model',
+    ['C09_read_from_socket_is_the_model', 'C09_read_from_socket_failure', 'C09_read_from_socket_other', 'C09_read_from_socket_stays_in_family',
+     'C09_execute_catches_is_the_model',
      'C09_udp_error_received_is_the_model', 'C09_tcp_error_received_is_the_model',
      'C09_reported_count', 'C09_first_failure_after_success_reports_one', 'C09_exceptions_are_mapped', 'C09_reported_outcome_is_the_mapped_one',
      'C09_no_exception_in_loop_callbacks', 'C09_loop_exception_is_expressible'],
@@ -137,7 +146,7 @@ SPEC = spec(
     note='The model emits ALoopExc exactly where the code would dereference a missing command / future (and for out-of-fuel); exceptions '
          'of other origins inside callbacks (e.g. inside asyncio itself) are outside the model and covered by the loop-exception-handler '
          'monitor on the real runs only.',
-    technique='Coq proof on hand models (failure counter; exception mapping) + exhaustive correspondence on histories + trace validation + monitors',
+    technique='Coq proof on hand models (failure counter -- refined by the generated shape of _read_from_socket; exception mapping) + exhaustive correspondence on histories + trace validation + monitors',
     design='DESIGN.md section 5 (C09)',
     rule='histories: all sequences over 4 outcome kinds up to length 5/7; fault scripts as C04 + OS-error letters; identification '
          'payload patterns x {discover, connect(ET/ES/DT) x UDP/TCP}',
